@@ -31,6 +31,7 @@ def cases(tier, seed):
     sens = [(1,), (2, 1), (1, 2), (2,), (3,), (1, 1), (2,), (1, 3)]
     defs = [space.bind_def(n, k, c, order=i + 1, container="list" if i % 2 else "set", sensors_shape=sens[i])
             for i, (n, k, c) in enumerate(shapes)]
+    defs.append(space.bind_def(4, 3, 2, order=2, sensors_shape=(2, 1), tag="-wide"))
     if tier == "thorough":
         defs += space.family_bind("quick", with_sensors=True)
         from fv.props.c03 import with_sensors
